@@ -27,12 +27,17 @@ CHUNK = 3000           # scenarios per trace-validation TLC run
 PARALLEL = 6
 
 ASSUMPTIONS = [
-    "entries, scalars and results are small integers, which are exact in f64: equality in the trace spec is bit-exact equality of the floats",
+    "entries, scalars and results are graded numbers m * 2^(80 e) (spec/matrix/Graded.tla: small integers at e = 0, tiny values at e < 0 such as "
+    "2^-80, huge ones at e > 0; |m| < 10^5, |e| <= 2, carried as integer codes m + e * 2000000): products, sums on one level and sums across "
+    "levels (the lower level is absorbed by a non-zero higher one) are exact in f64, so the contract's arithmetic is the IEEE arithmetic and "
+    "equality in the trace spec is equality of the floats (the sign of a zero is not distinguished)",
     "only square matrices (m = n) of size 1..3 (thorough: 1..4); band widths 0..n; the second operand of a binary op is built with identity / zeros / banded",
     "two-operation sequences: sizes 1..3; quick uses all storage shapes for n=1, 7 shapes for n=2 and a 3-shape slice for n=3, thorough all shapes; "
     "'inside the band' for a write into an operation's result refers to the storage (kind, ml, mu) the code itself reports for that result",
-    "fill patterns instead of all entry assignments: 'dist' (all entries distinct), 'sq' (squares; sums and differences with 'dist' are distinct), identity-like patterns for is_identity",
-    "the harness (replay_matrix.rs) only calls the public API, catches panics and converts f64 -> integer (non-integers become a sentinel that fails the contract)",
+    "fill patterns instead of all entry assignments: 'dist' (all entries distinct), 'sq' (squares; sums and differences with 'dist' are distinct), "
+    "'tiny' (all entries distinct multiples of 2^-80), identity-like patterns for is_identity (including 'eyet': an identity with one off-diagonal 2^-80)",
+    "the harness (replay_matrix.rs) only calls the public API, catches panics and converts f64 -> code of the graded number it equals exactly "
+    "(any other value becomes a sentinel that fails the contract)",
     "swap_rows and fill are modelled at Level B only (not part of C17's statement): mismatches there are counted as drift",
     "TLC and the CommunityModules Json/IOUtils modules are trusted",
 ]
@@ -81,6 +86,16 @@ def printed_values(out, tag):
             vals.append(" ".join(cur))
             cur = None
     return vals
+
+
+GSTRIDE, GHALF = 2000000, 1000000
+
+
+def _num(code):
+    """Integer code of a graded number (spec/matrix/Graded.tla) -> readable text."""
+    e = (code + GHALF) // GSTRIDE
+    m = code - e * GSTRIDE
+    return str(m) if e == 0 else f"{m}*2^{80 * e}"
 
 
 def _storage_tag(sc):
@@ -170,7 +185,9 @@ def _violations(viol_lines, by_sid):
         clause, sid, detail = v[2], v[3], v[4]
         s = by_sid[sid]
         out.append(vlib.Violation(PROP, _signature(clause, s["sc"], detail),
-                                  f"clause={clause} scenario={json.dumps(s['sc'], sort_keys=True)} observed={json.dumps(detail, sort_keys=True)}",
+                                  f"clause={clause} scalars(s,s2)=({_num(s['sc']['s'])},{_num(s['sc'].get('s2', 0))}) "
+                                  f"scenario={json.dumps(s['sc'], sort_keys=True)} observed={json.dumps(detail, sort_keys=True)} "
+                                  "[numbers are codes m+e*2000000 of m*2^(80e)]",
                                   {"sc": s["sc"], "initA": s["initA"], "wsA": s["wsA"], "wsB": s["wsB"],
                                    "wsC": s.get("wsC", []), "expect": s.get("expect")}))
     return out
@@ -246,8 +263,9 @@ def run(tier, seed, replay, keep, mutate=None):
             "contract_failures_on_impl": len(viol), "known_findings_matched": n_known,
             "exhaustive": True,
             "rule": "TLC enumerates every scenario of MC_Matrix (" + cfg + "): size x constructor x (ml,mu) in 0..n x fill pattern x "
-                    "operation (read-all / one extra write at every (i,j) / binary op with every storage of the second operand / "
-                    "scalar op with scalars -1,0,1,2 / is_identity / swap_rows / fill), plus two-operation sequences (first: every scalar "
+                    "operation (read-all / one extra write at every (i,j) / binary op with every storage of the second operand, whose entries are "
+                    "zeros, squares or (small sizes) multiples of 2^-80 / "
+                    "scalar op with scalars -1,0,1,2,2^-80,-2^-80,2^80 / is_identity / swap_rows / fill), plus two-operation sequences (first: every scalar "
                     "op x scalar or binary op; second, on the result: is_identity / write at every (i,j) + read-all / scalar op / "
                     "binary op with a fresh Identity, Full or Banded operand), the contract being evaluated after EACH step; each scenario is one behaviour of the "
                     "model, is replayed on the real Matrix API and its recorded trace is validated by TLC against Trace_Matrix",
